@@ -27,6 +27,9 @@ def run(ctx):
     for i in range(runs):
         conc_run(ctx, srv, i, clients=4 if ctx.quick else 6, steps=25 if ctx.quick else 60)
     ctx.extra_cov['concurrent_runs'] = runs
+    # big transactions (hundreds to thousands of queued commands, sent in one write) while other clients read and write the same keys
+    for i, depth in enumerate([300, 700] if ctx.quick else [257, 300, 513, 700, 1025, 3000]):
+        big_txn_run(ctx, srv, i, depth)
     # transactions and scripts pushing to a key somebody is blocked on: the waiter is served after the whole EXEC / script
     import props.c13 as c13
     for name, steps in c13.txn_schedules():
@@ -79,6 +82,32 @@ def run(ctx):
     ctx.validate_segments(tr, 'forms')
     ctx.extra_cov['form_segments'] = nf
     ctx.extra_cov['distinct_cases'] = len(paths) + runs + nf
+
+
+def big_txn_run(ctx, srv, i, depth):
+    tr = ctx.new_trace('bigtxn%d' % i)
+    setup = workloads.Session(srv, tr)
+    c = setup.open()
+    setup.cmd(c, [b'FLUSHALL'])
+    setup.close(c)
+    run = ConcRun(srv, tr)
+    txn = [[b'MULTI']] + [[b'INCR', b'ctr'] if j % 3 else [b'RPUSH', b'log', b'%d' % j] for j in range(depth)] + [[b'EXEC']]
+    scripts = {10: [('pipe', txn), ('cmd', [b'GET', b'ctr']), ('pipe', txn), ('cmd', [b'LLEN', b'log'])],
+               11: [('cmd', [b'GET', b'ctr']) if j % 2 else ('cmd', [b'LLEN', b'log']) for j in range(120)],
+               12: [('cmd', [b'MGET', b'ctr', b'other']) if j % 3 else ('cmd', [b'INCR', b'other']) for j in range(120)]}
+    run.run(scripts)
+    fin = workloads.Session(srv, tr)
+    fin.next_id = 100
+    try:
+        c = fin.open()
+        fin.cmd(c, [b'GET', b'ctr'])
+        fin.cmd(c, [b'LLEN', b'log'])
+        fin.close(c)
+    except workloads.ServerDied:
+        pass
+    ctx.validate(tr, label='bigtxn%d' % i)
+    if not srv.alive():
+        srv.restart()
 
 
 def conc_run(ctx, srv, i, clients, steps, evalheavy=False):
